@@ -28,6 +28,10 @@
 #include <list>
 #include <numeric>
 
+#ifdef DANMAR_CPPCHECK_VERIF
+#include "verifhooks.h"
+#endif
+
 class ErrorLogger;
 
 SingleExecutor::SingleExecutor(CppCheck &cppcheck, const std::list<FileWithDetails> &files, const std::list<FileSettings>& fileSettings, const Settings &settings, Suppressions &suppressions, ErrorLogger &errorLogger, TimerResults* timerResults)
@@ -50,7 +54,13 @@ unsigned int SingleExecutor::check()
     unsigned int c = 0;
 
     for (auto i = mFiles.cbegin(); i != mFiles.cend(); ++i) {
+#ifdef DANMAR_CPPCHECK_VERIF
+        verifhooks::crashPoint("file-begin");
+#endif
         result += mCppcheck.check(*i);
+#ifdef DANMAR_CPPCHECK_VERIF
+        verifhooks::crashPoint("file-end");
+#endif
         processedsize += i->size();
         ++c;
         if (!mSettings.quiet)
@@ -61,7 +71,13 @@ unsigned int SingleExecutor::check()
     // filesettings
     // check all files of the project
     for (const FileSettings &fs : mFileSettings) {
+#ifdef DANMAR_CPPCHECK_VERIF
+        verifhooks::crashPoint("file-begin");
+#endif
         result += mCppcheck.check(fs);
+#ifdef DANMAR_CPPCHECK_VERIF
+        verifhooks::crashPoint("file-end");
+#endif
         ++c;
         if (!mSettings.quiet)
             reportStatus(c, mFileSettings.size(), c, mFileSettings.size());
